@@ -125,9 +125,13 @@ def run_property(pid, tier):
     ctx = Ctx(pid, tier)
     crashed = None
     try:
+        if tier == "thorough" and getattr(mod, "ENGINE", "astq").startswith("mirfacts"):
+            facts.mir(force=True)  # clean re-extraction
         mod.run(ctx)
-        if tier == "thorough" and hasattr(mod, "run_thorough"):
-            mod.run_thorough(ctx)
+        if tier == "thorough":
+            if hasattr(mod, "run_thorough"):
+                mod.run_thorough(ctx)
+            run_fixtures(ctx)
     except facts_error_types() as e:  # tree does not build etc.
         crashed = "engine error: %s" % e
     except Exception:
@@ -160,6 +164,44 @@ def run_property(pid, tier):
     n_ok = sum(1 for o in ctx.obs if o.ok)
     print("%s %s: %d obligations over %d rules, %d discharged, %d known finding(s), %d violation(s), %.1fs" % (pid, tier, len(ctx.obs), len(ctx.rules), n_ok, len(knownhits), len(viol), wall))
     return 1 if viol else 0
+
+
+def run_fixtures(ctx):
+    """Thorough tier: the checker's own two-way test.  Every seeded mutation of this property
+    (/verif/seeded/<pid>-*/patch[.current].diff) is applied to a scratch copy of the current tree and
+    the property's rules are run against the copy: they must fire.  A miss is recorded in the
+    evidence and printed, it is not a violation of the repository."""
+    import glob
+    import shutil
+    import subprocess
+    import tempfile
+
+    res = {}
+    for d in sorted(glob.glob(os.path.join(VERIF, "seeded", ctx.pid + "-*"))):
+        name = os.path.basename(d)
+        patch = os.path.join(d, "patch.current.diff")
+        if not os.path.exists(patch):
+            patch = os.path.join(d, "patch.diff")
+        tmp = tempfile.mkdtemp(prefix="vfix-", dir="/tmp")
+        etmp = tempfile.mkdtemp(prefix="vfixev-", dir="/tmp")
+        try:
+            subprocess.check_call(["rsync", "-a", "--exclude", "target", "--exclude", ".git", facts.REPO + "/", tmp + "/"])
+            r = subprocess.run(["patch", "-p1", "--no-backup-if-mismatch", "-s", "-i", patch], cwd=tmp, capture_output=True, text=True)
+            if r.returncode != 0:
+                res[name] = {"applied": False}
+                continue
+            env = dict(os.environ, VERIF_REPO=tmp, VERIF_EVIDENCE_DIR=etmp, VERIF_TIER="quick")
+            rr = subprocess.run([sys.executable, os.path.abspath(__file__), ctx.pid, "--quick"], env=env, capture_output=True, text=True)
+            keys = [l.strip()[len("construct: "):] for l in rr.stdout.splitlines() if l.strip().startswith("construct:")]
+            res[name] = {"applied": True, "fired": rr.returncode == 1, "constructs": keys[:4]}
+        finally:
+            shutil.rmtree(tmp, ignore_errors=True)
+            shutil.rmtree(etmp, ignore_errors=True)
+    ctx.tables["fixtures (seeded mutations of this property, applied to a scratch copy)"] = res
+    for name, r in res.items():
+        if r.get("applied") and not r.get("fired"):
+            print("FIXTURE-MISS: %s is not detected by the rules of %s (recorded in the evidence; see DESIGN.md section 7)" % (name, ctx.pid))
+    ctx.note("fixtures: %d seeded mutation(s), %d applied, %d detected" % (len(res), sum(1 for r in res.values() if r.get("applied")), sum(1 for r in res.values() if r.get("fired"))))
 
 
 def facts_error_types():
@@ -221,7 +263,9 @@ def write_evidence(mod, ctx, tier, wall, viol, knownhits):
         "wall_s": round(wall, 3),
         "violations": len(viol),
     }
-    path = os.path.join(VERIF, "evidence", ctx.pid + ".json")
+    edir = os.environ.get("VERIF_EVIDENCE_DIR") or os.path.join(VERIF, "evidence")
+    os.makedirs(edir, exist_ok=True)
+    path = os.path.join(edir, ctx.pid + ".json")
     tmp = path + ".tmp"
     with open(tmp, "w") as fh:
         json.dump(ev, fh, indent=1, sort_keys=True)
